@@ -182,7 +182,7 @@ var plans = map[string]*Plan{
 	},
 	"C02": ctlPlan("C02", 100, 2500, map[string]int64{"io_write": 300, "replica_images_compared": 100},
 		"controller histories for RF 1..5 (RF = worker index mod 5 + 1): bring-up through register/start/add/file-sync/verify, then 10-40 I/O operations each with a fault assignment (ok, error, applied-then-error, timeout, error with monitor event before/after) per attached replica - enumerated round-robin for <=3 attached replicas, sampled with forced corners above - interleaved with replacement replicas, monitor failures, resizes and range probes; "+
-			"per operation: acknowledged => strictly more than half of the attached replicas applied it, failed replicas detached when the call returns; at quiescent points every attached replica holds every acknowledged write; non-trivial = case contains a fault assignment; distinct = hash of (RF, membership state, fault vector) sequence"),
+			"per operation: acknowledged => strictly more than half of the attached replicas applied it, failed replicas detached when the call returns; at quiescent points every attached replica holds every acknowledged write; every tenth case instead runs 2-8 concurrent client goroutines (block reads/writes with unique values, replicas with seeded delays, one replica failing half way) and checks the recorded history with porcupine against a register-per-block model (failed writes stay open); non-trivial = case contains a fault assignment; distinct = hash of (RF, membership state, fault vector) sequence"),
 	"C04": ctlPlan("C04", 100, 2500, map[string]int64{"io_read": 500, "read_sweeps": 100},
 		"C02's histories with reads issued at every position of the round-robin cursor after each change (|readers| consecutive reads), read faults on subsets of the RW replicas, WO replicas holding a poison pattern for everything they were not sent; "+
 			"a read may only reach RW replicas, a successful read equals the model of acknowledged writes, a failed reader is detached and another RW replica serves; non-trivial = case contains a fault assignment; distinct as C02"),
